@@ -2,7 +2,7 @@
 import json, os, signal, subprocess, sys
 from .. import common, gen, oracle, modelio, pipefam, pool, cli
 
-RULE = ("(a) library stages: each generated input (1-6 chromosomes incl. prefix families Chr1/Chr10, names used on both group axes) is run "
+RULE = ("(a) library stages: each generated input (1-6 chromosomes incl. prefix families Chr1/Chr10, names used on both group axes; group names equal up to case for the inputs that also go through the CLI) is run "
         "with the merge jobs in sorted / reversed / shuffled order and with several seeds of Python's random (the summation tasks are "
         "shuffled); (b) the real CLI with -n 1/2/4/16, --single_process, PYTHONHASHSEED 0/1/random, under 16 busy-loop processes; all "
         "runs of one input must exit 0 and give identical file names, axis labels (in order) and values; the first run is compared with the "
@@ -46,7 +46,7 @@ def lib_configs(tier):
 
 def cli_configs(tier):
     cf = [{"nproc": 1}, {"nproc": 4, "env": {"PYTHONHASHSEED": "1"}}, {"nproc": 16, "env": {"PYTHONHASHSEED": "random"}},
-          {"nproc": None, "flags": ["--single_process"]}]
+          {"nproc": None, "flags": ["--single_process"], "env": {"PYTHONHASHSEED": "2"}}, {"nproc": 2, "env": {"PYTHONHASHSEED": "3"}}]
     if tier != "quick":
         cf += [{"nproc": 2, "env": {"PYTHONHASHSEED": "random"}}, {"nproc": 8}, {"nproc": 3, "env": {"PYTHONHASHSEED": "12345"}},
                {"nproc": 16}, {"nproc": None, "flags": ["--single_process"], "env": {"PYTHONHASHSEED": "random"}}]
@@ -62,6 +62,15 @@ def run(chk):
         names = list(NAMESETS[i % len(NAMESETS)])
         k = r.randint(2, 6)
         cases.append(gen.gen_pair(r, max_chrom=k, max_genes=3, max_tes=14, chrom_names=names, min_chrom=k))
+    # the inputs that also go through the command line under several hash seeds get group names that a sloppy sort key would
+    # tie (equal up to case): their relative order must not depend on set iteration order
+    TIE_S = ["Unknown", "unknown", "UNKNOWN", "Gypsy", "gypsy", "GYPSY", "hAT", "HAT", "hat", "Copia", "copia", "COPIA"]
+    TIE_O = ["LTR", "ltr", "Ltr", "DNA", "dna", "Dna", "LINE", "line"]
+    for c in cases[:(2 if chk.tier == "quick" else 8)]:
+        sm = {n: TIE_S[i % len(TIE_S)] + ("" if i < len(TIE_S) else str(i)) for i, n in enumerate(sorted(set(t["superfam"] for t in c["tes"])))}
+        om = {n: TIE_O[i % len(TIE_O)] + ("" if i < len(TIE_O) else str(i)) for i, n in enumerate(sorted(set(t["order"] for t in c["tes"])))}
+        for t in c["tes"]:
+            t["superfam"], t["order"] = sm[t["superfam"]], om[t["order"]]
     lc = lib_configs(chk.tier)
     reqs = []
     for c in cases:
@@ -147,5 +156,9 @@ def replay(chk, rp):
     sums = [summarize(x) for x in reps]
     fails = [d for d in (diff_runs(sums[0], s_) for s_ in sums[1:]) if d]
     fails += [{"kind": "failed", "detail": s_["failed"]} for s_ in sums if "failed" in s_]
+    if not fails:       # found through the command line: worker counts / hash seeds
+        runs = [summarize(cli.run_case_cli(c, nproc=cfg.get("nproc"), flags=cfg.get("flags", ()), env=cfg.get("env"), timeout=300))
+                for cfg in cli_configs("thorough")]
+        fails = [d for d in (diff_runs(runs[0], s_) for s_ in runs[1:]) if d] + [{"kind": "failed", "detail": s_["failed"]} for s_ in runs if "failed" in s_]
     print(json.dumps({"failures": fails[:5]}, indent=1, default=str))
     return 1 if fails else 0
